@@ -193,7 +193,7 @@ def run_check(prop, tier, seed):
     if run_canaries:
         for c in cs:
             for i in range(len(c.canaries)):
-                tasks.append(('canary', c.name, 5000 if tier == 'quick' else 20000, i, ()))
+                tasks.append(('canary', c.name, max(c.defs.get('canary_timeout_ms', 0), 5000 if tier == 'quick' else 20000), i, ()))
     nproc = min(16, max(1, len(tasks)))
     if nproc > 1:
         with mp.get_context('fork').Pool(nproc) as pool:
